@@ -503,4 +503,11 @@ def rule_f(ctx: Ctx) -> None:
                 '(truth tables of the tests, edge-cut reachability); _read_unlocked serves the buffer only inside it; the buffer is written once.')
 
 
-RULES = [rule_a, rule_b, rule_c, rule_d, rule_e, rule_f]
+def rule_g(ctx: Ctx) -> None:
+    """defuse='always' given to the module-level API (validate / is_valid / to_dict ...) applies to the schema that the instance's location
+    hints name as well as to the instance: get_context must hand the option to both consumers - C12.h body."""
+    from .c12 import rule_h as options_reach_both
+    options_reach_both(ctx, 'C13.g')
+
+
+RULES = [rule_a, rule_b, rule_c, rule_d, rule_e, rule_f, rule_g]
